@@ -27,6 +27,13 @@ def _stmt_end(toks, i):
     field), used to drop cfg'd-out constructs."""
     n = len(toks)
     t = toks[i]
+    if is_id(t, "pub"):
+        k = i + 1
+        if k < n and is_p(toks[k], "("):
+            k = match_close(toks, k) + 1
+        if k < n and not (toks[k].kind == "id" and toks[k].text in ITEMLIKE):
+            # a struct field `pub name: T,`
+            return _stmt_end(toks, k)
     if t.kind == "id" and t.text in BLOCKLIKE or is_p(t, "{"):
         j = i
         while j < n:
